@@ -118,6 +118,7 @@ Record sched_inv (H : list bytes) (es0 : list entry) (prog : list (list call))
            thr_ok H es0 (es_of es0 (map snd l)) t;
   si_nodup : NoDup (map cl_tid (map snd l ++ concat (map unlogged (g_threads c))));
   si_logok : Forall (ok_call H) (map snd l);
+  si_gids : forall x, In x l -> fst x < length (g_threads c);
   si_prog : forall g t, nth_error (g_threads c) g = Some t ->
             exists pg, nth_error prog g = Some pg /\
                        trace es0 t = map (spec_outcome es0) pg /\
